@@ -13,7 +13,7 @@ ASSUMPTIONS = ["UBM variances > 0, counts >= 0, labels 0..K-1 (documented)", "pe
                " estimates, and the update solves the normal equations.  Exact E + exact M => the phase's marginal likelihood does not decrease (EM theorem, trusted)"]
 EXHAUSTIVE = ["3 phases", "class layouts (1,2) and (2,1) sessions, labels sorted and interleaved", "list of one or two accumulator tuples handed to the M-steps", "E-steps called on all statistics and, as Dask tasks are, on one class's statistics with the global accumulators", "E-step after U/V/D were re-assigned through the setters on a used machine"]
 OUTSIDE = ["ranks > 2, C*D > 2 at rank 2", "the EM theorem; log-determinant terms of the marginal likelihood", "rounding"]
-SIZES = {"quick": [(2, 1, 1, 1), (2, 1, 2, 2)], "thorough": [(2, 1, 1, 1), (2, 1, 2, 2), (2, 2, 1, 1), (1, 2, 2, 2)]}
+SIZES = {"quick": [(2, 1, 1, 1), (2, 1, 2, 2), (2, 1, 1, 2)], "thorough": [(2, 1, 1, 1), (2, 1, 2, 2), (2, 1, 1, 2), (2, 1, 2, 1), (2, 2, 1, 1), (1, 2, 2, 2)]}
 LAYOUTS = {"1+2": [0, 1, 1], "2+1-interleaved": [0, 1, 0]}
 
 
